@@ -1,20 +1,14 @@
-# Builds the framework support objects (offline, from files on disk only).
+# Builds the framework support object (offline, from files on disk only). The harnesses themselves are compiled by
+# bin/check on every run against /repo's current working tree; irsym is a Python script and needs no build step.
 CXX ?= g++
 CXXFLAGS = -std=c++17 -O2 -g -fPIC -Wall -Wno-unused-function
 BUILD = build
 
-all: $(BUILD)/symx.o $(BUILD)/irsym
+all: $(BUILD)/symx.o
 
 $(BUILD)/symx.o: symx/symx.cpp symx/symx.h
 	@mkdir -p $(BUILD)
 	$(CXX) $(CXXFLAGS) -c symx/symx.cpp -o $@
-
-$(BUILD)/irsym: irsym/irsym.cpp
-	@mkdir -p $(BUILD)
-	@if [ -f irsym/irsym.cpp ]; then $(CXX) -std=c++17 -O2 -g irsym/irsym.cpp -o $@ `llvm-config-14 --cxxflags --ldflags --libs core irreader support` -lz3 -fexceptions; fi
-
-irsym/irsym.cpp:
-	@true
 
 clean:
 	rm -rf $(BUILD)
